@@ -229,7 +229,7 @@ func (cl *compiler) compileForStmt(stmt *ast.ForStmt) {
 	cl.continueTarget = labelContinue
 
 	switch {
-	case stmt.Cond != nil && stmt.Init != nil && stmt.Post != nil:
+	case stmt.Init != nil || stmt.Post != nil:
 		// Will be implemented later; probably when the max number of locals will be lifted.
 		panic(cl.errorf(stmt, "can't compile C-style for loops yet"))
 
